@@ -275,10 +275,12 @@ class Stream:
             if op == '_label':
                 continue
             if op == '_dbg_info_start':
+                fr = {'node': args[0], 'children': 0, 'marker': False, 'own': [], 'kids': [],
+                      'code': 0, 'code_at_marker': None}
                 if stack:
                     stack[-1]['children'] += 1
-                stack.append({'node': args[0], 'children': 0, 'marker': False, 'own': [],
-                              'own_code': 0, 'code_in_children': 0})
+                    stack[-1]['kids'].append(fr)
+                stack.append(fr)
             elif op == '_dbg_info_end':
                 if not stack:
                     self.shape_errors.append('end-without-start')
@@ -288,16 +290,18 @@ class Stream:
                     self.shape_errors.append('end-does-not-match-start')
                 self.frames.append(top)
                 if stack:
-                    stack[-1]['code_in_children'] += top['code_in_children'] + top['own_code']
+                    stack[-1]['code'] += top['code']
             elif op == '_empty_block':
                 if stack:
                     stack[-1]['marker'] = True
+                    if stack[-1]['code_at_marker'] is None:
+                        stack[-1]['code_at_marker'] = stack[-1]['code']
             else:
                 off, dop, ops, size = decoded[k]
                 k += 1
                 if stack:
                     top = stack[-1]
-                    top['own_code'] += size
+                    top['code'] += size
                     top['own'].append((off, dop, top['children'], top['marker']))
                 else:
                     self.outside.append((off, dop))
@@ -305,18 +309,24 @@ class Stream:
             self.shape_errors.append('start-without-end')
 
 
-def guard_b(fr):
-    """the block has code inside a child, or an _empty_block marker followed
-    by an instruction of the block"""
-    return fr['code_in_children'] > 0 or any(mk for (_, _, _, mk) in fr['own'])
+def has_records(fr):
+    """does the table hold a non-empty record that lies inside this node's range
+    and stems from it: the node itself (non-block statement with code), a
+    descendant, or the start/end records made from an own _empty_block marker
+    that has code of the block after it"""
+    if not isinstance(fr['node'], Block):
+        return fr['code'] > 0
+    if fr['code_at_marker'] is not None and fr['code'] > fr['code_at_marker']:
+        return True
+    return any(has_records(k) for k in fr['kids'])
 
 
 def reason_of(fr):
     if fr['children'] == 0:
-        return 'marker-at-end' if fr['marker'] else 'label-only-body'
-    if fr['code_in_children'] == 0:
+        return 'marker-at-end' if fr['marker'] else 'no-child-no-marker'
+    if all(k['code'] == 0 for k in fr['kids']):
         return 'children-emit-no-code'
-    return 'other'
+    return 'children-without-records'
 
 
 def oracle(src, code_obj, module, dbg_mem, idmap, decoded, do_run, script, max_ticks, tags):
@@ -542,9 +552,10 @@ def oracle(src, code_obj, module, dbg_mem, idmap, decoded, do_run, script, max_t
                 fail(f'C11/bare-instruction-between-children({cname(n)})', off=off, op=dop)
                 continue
             got = mem_find(off)
+            explained = blk and not has_records(fr)
             if got is None:
                 uncovered.add(off)
-                if blk and not guard_b(fr):
+                if explained:
                     fail(f'C11/uncovered({cname(n)},{reason_of(fr)})', off=off, op=dop,
                          line=src.count(chr(10), 0, n.loc_start) + 1)
                 else:
@@ -552,13 +563,14 @@ def oracle(src, code_obj, module, dbg_mem, idmap, decoded, do_run, script, max_t
                 continue
             if not any(got.node is x for x in expected):
                 exp_name = cname(expected[0])
-                if blk and not guard_b(fr) and got.node is n.end_stmt:
-                    # the records of this block come from a foreign _empty_block
-                    # marker that sits exactly at its start offset
-                    fail(f'C11/misattributed({exp_name}->{cname(got.node)},{reason_of(fr)},foreign-marker)',
-                         off=off, op=dop)
+                if explained:
+                    # the block has no record of its own: its code falls to an
+                    # enclosing record, or to records made from a foreign
+                    # _empty_block marker lying in its range
+                    fail(f'C11/misattributed-block-without-records({cname(n)},{reason_of(fr)})',
+                         off=off, op=dop, got=cname(got.node))
                 else:
-                    fail(f'C11/misattributed({exp_name}->{cname(got.node)})', off=off, op=dop,
+                    fail(f'C11/misattributed({exp_name}->{cname(got.node)},{dop})', off=off, op=dop,
                          line=got.source_start_line)
 
     # O4 coverage, from the decoded code and the table alone
